@@ -12,6 +12,8 @@
 (* st.hold    session -> set of holders ("app", "obs", "async", "queue")   *)
 (* st.born / st.dead   sessions for which the NEW / DEL event has fired    *)
 (* st.objs    session objects currently allocated                          *)
+(* st.closed  stream sessions (TCP, TLS, WebSocket) whose peer has gone:   *)
+(*            the transport is closed, the object lives on while held       *)
 (***************************************************************************)
 EXTENDS Naturals, Integers, Sequences, FiniteSets
 
@@ -23,7 +25,7 @@ Ran(f) == {f[x] : x \in DOMAIN f}
 
 InitSess(timeoutMs, maxIdle) ==
   [timeout |-> timeoutMs, maxidle |-> maxIdle, map |-> EmptyFn, peer |-> EmptyFn, last |-> EmptyFn, hold |-> EmptyFn,
-   born |-> {}, dead |-> {}, objs |-> {}, teardown |-> FALSE]
+   born |-> {}, dead |-> {}, objs |-> {}, closed |-> {}, teardown |-> FALSE]
 
 Live(st) == Ran(st.map)
 Holders(st, s) == Get(st.hold, s, {})
@@ -47,19 +49,23 @@ Unhold_do(st, s, h)  == [st EXCEPT !.hold = Put(@, s, Holders(st, s) \ {h})]
 SetHolders_do(st, h, ss) == [st EXCEPT !.hold = [s \in (DOMAIN st.hold) \cup ss |->
                                                    IF s \in ss THEN Holders(st, s) \cup {h} ELSE Holders(st, s) \ {h}]]
 
+\* ---- a stream session's peer disconnects: nothing more will arrive on it; whoever holds it keeps a valid object ----
+Disc_do(st, s) == IF s \in Live(st) THEN [st EXCEPT !.closed = @ \cup {s}] ELSE st
+
 \* ---- deletion (the DEL event): why it is allowed ----
 DelCause(st, s, now) ==
   IF st.teardown THEN "teardown"
   ELSE IF ~Idle(st, s) THEN "none-held"
+  ELSE IF s \in st.closed THEN "closed"                          \* no timeout to wait for: the peer is gone
   ELSE IF Overdue(st, s, now) THEN "timeout"
   ELSE IF st.maxidle > 0 /\ Cardinality(IdleSet(st)) >= st.maxidle /\ OldestIdle(st, s) THEN "evicted"
   ELSE IF st.maxidle > 0 /\ Cardinality(IdleSet(st)) >= st.maxidle THEN "none-not-oldest"
   ELSE "none-early"
-Del_ok(st, s, now) == s \in st.born /\ s \notin st.dead /\ DelCause(st, s, now) \in {"teardown", "timeout", "evicted"}
-Del_do(st, s) == [st EXCEPT !.map = Drop(@, st.peer[s]), !.dead = @ \cup {s}, !.hold = Drop(@, s)]
+Del_ok(st, s, now) == s \in st.born /\ s \notin st.dead /\ DelCause(st, s, now) \in {"teardown", "timeout", "evicted", "closed"}
+Del_do(st, s) == [st EXCEPT !.map = Drop(@, st.peer[s]), !.dead = @ \cup {s}, !.hold = Drop(@, s), !.closed = @ \ {s}]
 
 \* ---- the obligation at an I/O step: nothing idle is overdue afterwards ----
-NothingOverdue(st, now) == \A s \in IdleSet(st) : ~Overdue(st, s, now)
+NothingOverdue(st, now) == \A s \in IdleSet(st) : ~Overdue(st, s, now) /\ s \notin st.closed
 
 \* ---- state invariants ----
 OneToOne(st) == \A p, q \in DOMAIN st.map : st.map[p] = st.map[q] => p = q
